@@ -37,8 +37,9 @@ def check_section(ctx: Ctx, case) -> None:
     items = case["items"]
     res = case.get("res", 192)
     exp = expected_notes(res, items)
-    rc = {"res": res, "lines": _lines(items), "fmt": case.get("fmt", 0)}
-    chart, tr = T.parse_track(ctx, res, TEMPO, _lines(items), case.get("header", HEADER), rc,
+    rc = {"res": res, "lines": _lines(items), "fmt": case.get("fmt", 0), "header": case.get("header", HEADER),
+          "tempo": case.get("tempo", TEMPO)}
+    chart, tr = T.parse_track(ctx, res, case.get("tempo", TEMPO), _lines(items), case.get("header", HEADER), rc,
                               fmt=case.get("fmt", 0))
     if tr is None:
         return
@@ -101,7 +102,8 @@ def table_cases(ctx: Ctx):
                             k += 1
                     # a third of the table is written with blank/tab padding around the lines
                     k = mask * 97 + pos * 13 + gap + tap * 2 + forced
-                    yield {"items": groups, "fmt": k + 1 if k % 3 == 0 else 0}
+                    yield {"items": groups, "fmt": k + 1 if k % 3 == 0 else 0,
+                           "header": S.HEADER_LIST[k % 40]}
 
 
 # ------------------------------------------------------------------------------------------------
@@ -157,7 +159,15 @@ def _sections(draw, max_ticks):
     lead = [it for it in items[:items.index(nlines[0])]]
     lead_sorted = sorted(lead, key=lambda it: it[0])
     items[:len(lead)] = lead_sorted
-    return {"res": res, "items": items, "fmt": draw(st.one_of(st.just(0), st.just(0), st.integers(1, 10 ** 6)))}
+    # any of the 40 sections; sometimes a tempo so fast that neighbouring ticks share a timestamp
+    # (grouping is by tick, not by time), sometimes a tempo change in the middle
+    tempo = [[0, draw(st.sampled_from([120000, 120000, 10 ** 9, 1000]))]]
+    if draw(st.integers(0, 3)) == 0:
+        tempo.append([draw(st.integers(1, max(1, tick))), draw(st.sampled_from([60000, 10 ** 9, 200001]))])
+    if draw(st.integers(0, 5)) == 0:
+        res = 10 ** 6
+    return {"res": res, "items": items, "tempo": tempo, "header": draw(st.sampled_from(S.HEADER_LIST)),
+            "fmt": draw(st.one_of(st.just(0), st.just(0), st.integers(1, 10 ** 6)))}
 
 
 def strat_sections(ctx: Ctx):
